@@ -77,6 +77,7 @@ type Path struct {
 	Exit   string // "return", "panic", "stop"
 	Ret    []Val
 	Blocks []*ssa.BasicBlock // root-frame blocks in order
+	EndEnv *env
 	eng    *pathEngine
 }
 
@@ -120,12 +121,12 @@ func (w *World) enumPaths(fn *ssa.Function, opts pathOpts, visit func(p *Path)) 
 		start = opts.Start
 	}
 	e.walkBlock(root, nil, start, nil, func(en *env, ret []Val) {
-		e.emit("return", ret)
+		e.emit("return", ret, en)
 	})
 	return e.count, e.over
 }
 
-func (e *pathEngine) emit(exit string, ret []Val) {
+func (e *pathEngine) emit(exit string, ret []Val, en *env) {
 	if e.over {
 		return
 	}
@@ -134,7 +135,7 @@ func (e *pathEngine) emit(exit string, ret []Val) {
 		e.over = true
 		return
 	}
-	p := &Path{Exit: exit, Ret: ret, eng: e}
+	p := &Path{Exit: exit, Ret: ret, eng: e, EndEnv: en}
 	p.Events = append([]Event(nil), e.events...)
 	p.Atoms = append([]Atom(nil), e.atoms...)
 	p.Blocks = append([]*ssa.BasicBlock(nil), e.blocks...)
@@ -171,7 +172,7 @@ func (e *pathEngine) walkBlock(fr *Frame, pred, b *ssa.BasicBlock, en *env, k fu
 		return
 	}
 	if fr == e.root && pred != nil && e.opts.StopAt != nil && e.opts.StopAt(b) {
-		e.emit("stop", nil)
+		e.emit("stop", nil, en)
 		return
 	}
 	if pred != nil {
@@ -241,7 +242,7 @@ func (e *pathEngine) walkInstrs(fr *Frame, b *ssa.BasicBlock, idx int, en *env, 
 			for si, succ := range b.Succs {
 				pol := si == 0
 				// prune constant conditions
-				if cv, ok := constBool(e.resolve(Val{x.Cond, fr, en}).V); ok && cv != pol {
+				if cv, ok := e.evalCond(Val{x.Cond, fr, en}); ok && cv != pol {
 					continue
 				}
 				e.atoms = append(e.atoms, Atom{Cond: Val{x.Cond, fr, en}, Pol: pol, If: x})
@@ -265,7 +266,7 @@ func (e *pathEngine) walkInstrs(fr *Frame, b *ssa.BasicBlock, idx int, en *env, 
 				return // "blocking select matched no case": infeasible
 			}
 			e.events = append(e.events, Event{In: in, F: fr, E: en, Idx: len(e.events)})
-			e.emit("panic", nil)
+			e.emit("panic", nil, en)
 			return
 		default:
 			e.events = append(e.events, Event{In: in, F: fr, E: en, Idx: len(e.events)})
@@ -596,4 +597,42 @@ func isSelectFallthroughPanic(p *ssa.Panic) bool {
 		}
 	}
 	return false
+}
+
+// evalCond folds a branch condition whose operands resolve to constants on this path
+// (boolean constants, integer comparisons of constants such as a first-iteration flag i == 0).
+func (e *pathEngine) evalCond(v Val) (bool, bool) {
+	r := e.resolve(v)
+	if b, ok := constBool(r.V); ok {
+		return b, true
+	}
+	if u, ok := r.V.(*ssa.UnOp); ok && u.Op == token.NOT {
+		if b, ok := e.evalCond(Val{u.X, r.F, r.E}); ok {
+			return !b, true
+		}
+	}
+	bin, ok := r.V.(*ssa.BinOp)
+	if !ok {
+		return false, false
+	}
+	x, okx := constInt(e.resolve(Val{bin.X, r.F, r.E}).V)
+	y, oky := constInt(e.resolve(Val{bin.Y, r.F, r.E}).V)
+	if !okx || !oky {
+		return false, false
+	}
+	switch bin.Op {
+	case token.EQL:
+		return x == y, true
+	case token.NEQ:
+		return x != y, true
+	case token.LSS:
+		return x < y, true
+	case token.LEQ:
+		return x <= y, true
+	case token.GTR:
+		return x > y, true
+	case token.GEQ:
+		return x >= y, true
+	}
+	return false, false
 }
